@@ -301,7 +301,7 @@ class SimpleAdapter:
             r = iter_next(ex, self.inner)
             if r.variant == 0:
                 return r
-            return some(ex, clone_value(ex, r.fields[0]))
+            return some(ex, clone_one_level(ex, r.fields[0]))
         if k == 'rev':
             it = val(self.inner)
             if hasattr(it, 'next_back'):
@@ -447,6 +447,15 @@ def clone_value(ex, v):
     return dup(t)
 
 
+def clone_one_level(ex, v):
+    """Clone::clone(&T) where T may itself be a reference: &&U -> &U (shared), &U -> U (cloned)"""
+    if isinstance(v, Ref):
+        inner = load(v)
+        if isinstance(inner, Ref):
+            return inner
+    return clone_value(ex, v)
+
+
 def values_eq(ex, x, y):
     x = force(ex, val(x))
     y = force(ex, val(y))
@@ -580,16 +589,35 @@ def partial_cmp_dispatch(ex, a, b):
 
 # ============================================================================= floats
 
+HUGE = 2 ** 1024
+
+
+def inf_of(val):
+    if is_conc(val):
+        return abs(val) >= HUGE
+    v = zreal(val)
+    return simp(z3.Or(v >= HUGE, v <= -HUGE))
+
+
 def fresh_f64(ex, tag='f'):
-    return F64(ex.fresh(tag, 'Real'), ex.fresh(tag + '_nan', 'Bool'), ex.fresh(tag + '_inf', 'Bool'))
+    """an arbitrary float: real value (|value| >= 2^1024 stands for +-infinity) and a NaN flag"""
+    v = ex.fresh(tag, 'Real')
+    return F64(v, ex.fresh(tag + '_nan', 'Bool'), inf_of(v))
 
 
 def float_cmp(ex, op, x, y):
-    if isinstance(x, F64) and isinstance(y, F64) and is_conc(x.val) and is_conc(y.val) \
-            and x.nan is False and y.nan is False and x.inf is False and y.inf is False:
-        return {'Eq': x.val == y.val, 'Lt': x.val < y.val, 'Le': x.val <= y.val, 'Gt': x.val > y.val,
-                'Ge': x.val >= y.val, 'Ne': x.val != y.val}[op]
-    return ex.fresh('fcmp_' + op, 'Bool')
+    """IEEE comparison on the value model: false (true for !=) when either side is NaN, else the real order"""
+    if not isinstance(x, F64):
+        x = F64(Fraction(x) if is_conc(x) else x, False, False)
+    if not isinstance(y, F64):
+        y = F64(Fraction(y) if is_conc(y) else y, False, False)
+    nan = b_or(x.nan, y.nan)
+    base = {'Eq': n_eq, 'Lt': n_lt, 'Le': n_le, 'Gt': n_gt, 'Ge': n_ge, 'Ne': lambda a, b: b_not(n_eq(a, b))}[op](x.val, y.val)
+    if nan is False:
+        return base
+    if nan is True:
+        return op == 'Ne'
+    return b_ite(nan, op == 'Ne', base) if not isinstance(base, bool) else simp(z3.If(zbool(nan), z3.BoolVal(op == 'Ne'), z3.BoolVal(base)))
 
 
 def float_binop(ex, op, x, y):
@@ -605,8 +633,15 @@ def float_cast(ex, kind, v, src_ty, ty):
         # exact only below 2^53; keep the value relation loose: opaque finite float
         return F64(ex.fresh('i2f', 'Real'), False, False)
     if kind == 'FloatToInt':
+        lo, hi = INT_RANGES[ty]
         if isinstance(v, F64) and is_conc(v.val) and v.nan is False and v.inf is False:
             return wrap_sat(r_trunc(v.val), ty)
+        if isinstance(v, F64) and not isinstance(v.val, F64):
+            # `as` casts saturate; NaN -> 0; +-inf -> the bound with the sign of the value
+            t = r_trunc(v.val)
+            sat = z3.If(zint(t) < lo, lo, z3.If(zint(t) > hi, hi, zint(t)))
+            infv = z3.If(zreal(v.val) >= 0, hi, lo)
+            return z3.If(zbool(v.nan), 0, z3.If(zbool(v.inf), infv, sat))
         r = ex.fresh('f2i', 'Int')
         ex.assume(in_range(r, ty))
         return r
@@ -749,7 +784,7 @@ def m_opt_misc(ex, m, args, callee):
     if k in ('cloned', 'copied'):
         if o.variant == 0:
             return none(ex)
-        return some(ex, clone_value(ex, o.fields[0]))
+        return some(ex, clone_one_level(ex, o.fields[0]))
     if k == 'take':
         r = innermost_ref(args[0])
         old = load(r)
@@ -1460,6 +1495,16 @@ def m_char_case(ex, m, args, callee):
     return z3.If(z3.And(c >= 97, c <= 122), c - 32, c)
 
 
+@model(r'^(from_u32|char::from_u32)$')
+def m_from_u32(ex, m, args, callee):
+    v = args[0]
+    okc = simp(z3.And(zint(v) >= 0, zint(v) <= 0x10FFFF, z3.Not(z3.And(zint(v) >= 0xD800, zint(v) <= 0xDFFF)))) if not is_conc(v) else (
+        0 <= v <= 0x10FFFF and not (0xD800 <= v <= 0xDFFF))
+    if ex.branch(okc, 'valid unicode scalar'):
+        return some(ex, v)
+    return none(ex)
+
+
 @model(r'^(from_digit|char::from_digit)$')
 def m_from_digit(ex, m, args, callee):
     d, radix = args
@@ -1657,6 +1702,7 @@ def rat_parts(ex, v):
     cons = [d >= 1,
             z3.ToReal(n) == v * z3.ToReal(d),
             (d == 1) == z3.IsInt(v),
+            z3.Implies(d == 1, z3.ToReal(n) == v),
             z3.Implies(n == 1, v > 0),
             z3.Implies(n == -1, v < 0),
             z3.Implies(z3.And(v != 0, z3.IsInt(1 / v)), z3.Or(n == 1, n == -1)),
@@ -1720,11 +1766,12 @@ def m_numrat_abs(ex, m, args, callee):
 @model(r'^<NumRat as ToPrimitive>::to_f64$')
 def m_numrat_to_f64(ex, m, args, callee):
     v = val(args[0])
-    # num-rational's to_f64 always yields Some (possibly +-inf); value is the nearest float
+    # num-rational's to_f64 always yields Some; the float is the rational's value up to rounding.  The value
+    # model keeps the exact value (rounding is ignored - stated in DESIGN.md) and flags overflow to infinity.
     if is_conc(v):
-        return some(ex, F64(Fraction(float(v)) if abs(v) < 10 ** 300 else Fraction(0), False, abs(v) >= 10 ** 300))
-    f = F64(ex.fresh('rat2f', 'Real'), False, ex.fresh('rat2f_inf', 'Bool'))
-    return some(ex, f)
+        big = abs(v) >= 2 ** 1024
+        return some(ex, F64(Fraction(v) if not big else Fraction(0), False, big))
+    return some(ex, F64(v, False, inf_of(v)))
 
 
 @model(r'^NumRat::from_float$')
@@ -1750,7 +1797,8 @@ def m_f64(ex, m, args, callee):
     if k == 'is_finite':
         return b_not(b_or(f.nan, f.inf))
     if k in ('is_sign_positive', 'is_sign_negative'):
-        return ex.fresh('fsign', 'Bool')
+        pos = n_ge(f.val, 0)
+        return pos if k == 'is_sign_positive' else b_not(pos)
     if k == 'abs':
         v = f.val
         return F64(abs(v) if is_conc(v) else z3.If(v >= 0, v, -v), f.nan, f.inf)
@@ -2163,6 +2211,41 @@ def m_vec(ex, m, args, callee):
             return sep.join(items)
         return Opaque('string', 'joined')
     raise Unmodelled('Vec::' + k)
+
+
+@model(r'^<impl \[.*\]>::(sort_by|sort|sort_by_key|sort_unstable|sort_unstable_by|sort_unstable_by_key|sort_by_cached_key)$|^Vec::(sort_by|sort|sort_by_key|sort_unstable|sort_unstable_by|sort_unstable_by_key|dedup)$')
+def m_sort(ex, m, args, callee):
+    """stable insertion sort driven by the real comparator (contract of slice::sort*: a permutation ordered by cmp)"""
+    k = m.group(1) or m.group(2)
+    r = innermost_ref(args[0])
+    v = load(r)
+    items = list(v.fields)
+    if k == 'dedup':
+        out = []
+        for it in items:
+            if out and ex.branch(eq_dispatch(ex, out[-1], it), 'dedup equal'):
+                continue
+            out.append(it)
+        v.fields[:] = out
+        return Tup([])
+
+    def less(a, b):
+        if k in ('sort_by', 'sort_unstable_by'):
+            o = ex.call_value(args[1], [Ref(Cell(a, 'tmp')), Ref(Cell(b, 'tmp'))])
+            return deref_all(o).vname == 'Less'
+        if k in ('sort_by_key', 'sort_unstable_by_key', 'sort_by_cached_key'):
+            ka = ex.call_value(args[1], [Ref(Cell(a, 'tmp'))])
+            kb = ex.call_value(args[1], [Ref(Cell(b, 'tmp'))])
+            return cmp_values(ex, ka, kb) == 'Less'
+        return cmp_values(ex, a, b) == 'Less'
+    out = []
+    for it in items:
+        pos = len(out)
+        while pos > 0 and less(it, out[pos - 1]):
+            pos -= 1
+        out.insert(pos, it)
+    v.fields[:] = out
+    return Tup([])
 
 
 @model(r'^box_assume_init_into_vec_unsafe$|^<impl \[.*\]>::into_vec$|^into_vec$')
